@@ -1,7 +1,6 @@
 package main
 
 import (
-	"fmt"
 	"strings"
 
 	mxj "github.com/clbanning/mxj/v2"
@@ -157,4 +156,3 @@ func mustBeDefault(c *Ctx) {
 	}
 }
 
-func (c Cfg) String() string { return fmt.Sprintf("%+v", c) }
